@@ -358,6 +358,38 @@ def corpus(ctx: Ctx, rng):
         impl = check_validate(ctx, "GNFA", k, "corpus:gnfa-shape", exp, rule)
         if impl == "ok":  # pre-fix tree: accepted — then it has to be usable
             use_definition(ctx, "GNFA", k, rng, "corpus:gnfa-shape")
+    # reserved names (fixed b159ae7, 07f4843, cb4efab): the three definitions whose behaviour
+    # motivated the fixes must now be REJECTED with the documented class
+    x1 = dict(states={0, None}, input_symbols={"a", "b"}, transitions={0: {"a": 0}, None: {}}, initial_state=0,
+              final_states={None}, allow_partial=True)  # accepted 'b' (missing transition) and 'x'
+    x1b = dict(states={None, 1}, input_symbols={"a"}, transitions={None: {"a": 1}, 1: {"a": None}}, initial_state=1,
+               final_states={1}, allow_partial=False)  # rejected 'aa' while d|d and d.minify() accepted it
+    ed = dict(states={0, 1}, input_symbols={"", "a"}, transitions={0: {"a": {1}}, 1: {"": {0}}}, initial_state=0,
+              final_states={1})  # an NFA over the alphabet NFA.edit_distance({"", "a"}, …) was built on
+    pda = dict(states={0, 1}, input_symbols={"a"}, stack_symbols={"Z", ""},
+               transitions={0: {"": {"Z": (0, ""), "": (1, "Z")}}}, initial_state=0, initial_stack_symbol="Z",
+               final_states={1}, acceptance_mode="final_state")  # the empty stack made a move: '' accepted
+    npda = dict(pda, transitions={0: {"": {"Z": {(0, "")}, "": {(1, "Z")}}}})
+    for cls, k, exp, rule in (("DFA", x1, "InvalidStateError", "reserved_state_name_none"),
+                              ("DFA", x1b, "InvalidStateError", "reserved_state_name_none"),
+                              ("NFA", ed, "InvalidSymbolError", "reserved_input_symbol_empty"),
+                              ("DPDA", pda, "InvalidSymbolError", "reserved_stack_symbol_empty"),
+                              ("NPDA", npda, "InvalidSymbolError", "reserved_stack_symbol_empty")):
+        impl = check_validate(ctx, cls, k, "corpus:reserved-names", exp, rule)
+        check_construct_options(ctx, cls, k, "corpus:reserved-names")
+        if impl == "ok":  # pre-fix tree: accepted — then it has to be usable
+            for _ in range(3):
+                use_definition(ctx, cls, k, rng, "corpus:reserved-names")
+    # … and the library's own constructor that was called with such an alphabet
+    ctx.case(("corpus:reserved-names", "NFA.edit_distance"))
+    from automata.fa.nfa import NFA
+    res = run_op(lambda: NFA.edit_distance({"", "a"}, "a", 1))
+    got = "ok" if res[0] == "ok" else type(res[1]).__name__
+    ctx.stat(f"corpus:edit_distance_empty_symbol:{got}")
+    if got != "InvalidSymbolError":
+        ctx.prop_fail(f"NFA.edit_distance over the alphabet {{'', 'a'}} gives {got}, documented: InvalidSymbolError "
+                      "(the empty string is not an input symbol)",
+                      dict(cls="NFA", kind="edit_distance_empty_symbol"), None)
     # the documentation's own examples are accepted
     g_ok = dict(states={0, 1, 2}, input_symbols={"a"}, transitions={0: {1: "a", 2: None}, 1: {1: "a", 2: ""}},
                 initial_state=0, final_state=2)
@@ -484,6 +516,13 @@ def replay(ctx: Ctx, path: str) -> int:
         kw = eval(rp["kwargs"], _env())
         for _ in range(10):
             options_check(ctx, cls, kw, rng, "replay")
+    elif kind == "edit_distance_empty_symbol":
+        from automata.fa.nfa import NFA
+        res = run_op(lambda: NFA.edit_distance({"", "a"}, "a", 1))
+        got = "ok" if res[0] == "ok" else type(res[1]).__name__
+        if got != "InvalidSymbolError":
+            ctx.prop_fail(f"NFA.edit_distance over the alphabet {{'', 'a'}} gives {got}, documented: InvalidSymbolError",
+                          rp, None)
     if ctx.prop_fails:
         print(f"VIOLATION property=C19 replay={path}")
         print("  " + ctx.prop_fails[0]["what"])
